@@ -692,6 +692,8 @@ impl IterState {
     /// Skip all characters up to first space symbol or end-of-input
     #[inline]
     fn skip_eq_value(&self, slice: &[u8], offset: usize) -> Option<usize> {
+        // `offset` points to the `=` sign, the value is searched after it
+        let offset = offset + 1;
         let mut iter = (offset..).zip(slice[offset..].iter());
 
         // Skip all up to the quote and get the quote type
@@ -717,11 +719,11 @@ impl IterState {
 
         match iter.find(|(_, &b)| b == quote) {
             // Input: `    key  =  "   "`
-            //                         ^
-            Some((e, b'"')) => Some(e),
+            //                          ^
+            Some((e, b'"')) => Some(e + 1),
             // Input: `    key  =  '   '`
-            //                         ^
-            Some((e, _)) => Some(e),
+            //                          ^
+            Some((e, _)) => Some(e + 1),
 
             // Input: `    key  =  "   `
             // Input: `    key  =  '   `
